@@ -84,12 +84,17 @@ def get_waterfall_from_raw(raw_filename, block_size, num_chans, int_factor=1, ff
     """
     with open(raw_filename, "rb") as f:
         i = 1
+        directio = 0
         chunk = f.read(80)
         while f"{'END':<80}".encode() not in chunk:
+            if chunk[:8].strip() == b'DIRECTIO':
+                directio = int(chunk[9:].decode().strip().strip("'"))
             chunk = f.read(80)
             i += 1
-        # Skip zero padding
-        chunk = f.read((512 - (80 * i % 512)))
+        # Skip zero padding, which is only present with DIRECTIO (and then only 
+        # up to the next multiple of 512 bytes)
+        if directio != 0:
+            chunk = f.read(-(80 * i) % 512)
         # Read data
         chunk = f.read(block_size)
         
